@@ -121,6 +121,8 @@ type FnCtx struct {
 	derived  map[string]bool
 	assumes  []string
 	inlineDepth int
+	usedGlobals []*ssa.Global
+	nGlobalInv  int
 }
 
 type CVal struct {
@@ -365,6 +367,9 @@ func (fr *frame) findLoops() {
 			for _, in := range b.Instrs {
 				p := in.Pos()
 				if _, isDbg := in.(*ssa.DebugRef); isDbg {
+					continue
+				}
+				if _, isPhi := in.(*ssa.Phi); isPhi {
 					continue
 				}
 				if !p.IsValid() {
@@ -646,6 +651,19 @@ func (fr *frame) doReturn(b *ssa.BasicBlock, st *State, vals []Val, pos token.Po
 	}
 	env := fc.contractEnv(fc.c, fr.fn, nil, st, fr.old)
 	env.bindResults(fr.fn, vals, fr)
+	for _, gi := range fc.e.specs.GlobalInvs {
+		if gi.By != fc.c.Key {
+			continue
+		}
+		genv := &Env{fc: fc, pkg: gi.Pkg, vars: map[string]CVal{}, bound: map[string]CVal{}, st: st, old: fr.old}
+		t, err := genv.evalBool(gi.Expr)
+		if err != nil {
+			fc.unsupported("globalinv %s: %v", gi.Name, err)
+			continue
+		}
+		o := fc.oblig("post", "globalinv."+gi.Name, t.S, reach, pos, nil)
+		o.Src = gi.Src
+	}
 	for idx, cl := range fc.c.Ensures {
 		t, err := env.evalBool(cl.Expr)
 		name := cl.Name
@@ -692,14 +710,7 @@ func (fr *frame) val(v ssa.Value) Val {
 	case *ssa.Function:
 		return Term{strconv.Itoa(fc.e.funcTag(fnKey(c))), SInt}
 	case *ssa.Global:
-		// address of a package-level variable: a fixed reference per global
-		name := "glob$" + sanitize(c.Pkg.Pkg.Name()+"_"+c.Name())
-		if !fc.declSet[name] {
-			fc.declare(name, SInt)
-			fc.fact(fmt.Sprintf("(< %s 0)", name)) // globals live at negative addresses: never nil, never fresh
-			fc.fact(fmt.Sprintf("(= %s (- %d))", name, 1000+fc.e.funcTag("glob:"+c.String())))
-		}
-		return Term{name, SInt}
+		return fc.globalRef(c)
 	case *ssa.Builtin:
 		return c
 	}
@@ -752,4 +763,40 @@ func smtString(s string) string {
 	}
 	sb.WriteByte('"')
 	return sb.String()
+}
+
+// globalRef: address of a package-level variable: a fixed negative reference per global
+// (never nil, never fresh).
+func (fc *FnCtx) globalRef(c *ssa.Global) Term {
+	name := "glob$" + sanitize(c.Pkg.Pkg.Name()+"_"+c.Name())
+	if !fc.declSet[name] {
+		fc.declare(name, SInt)
+		fc.fact(fmt.Sprintf("(= %s (- %d))", name, 1000+fc.e.funcTag("glob:"+c.String())))
+	}
+	return Term{name, SInt}
+}
+
+// isStable: loads of the global yield a state-independent constant in this function.
+func (fc *FnCtx) isStable(g *ssa.Global) bool {
+	if _, bad := fc.e.unstable[g]; bad {
+		return false
+	}
+	if fc.fn != nil && fc.fn.Pkg == g.Pkg && (fc.fn.Name() == "init" || strings.HasPrefix(fc.fn.Name(), "init#")) {
+		return false
+	}
+	return true
+}
+
+func (fc *FnCtx) globalVal(g *ssa.Global) Term {
+	elemT := ptrElem(g.Type())
+	srt := fc.e.sortOf(elemT)
+	name := "gval$" + sanitize(g.Pkg.Pkg.Name()+"_"+g.Name())
+	if !fc.declSet[name] {
+		fc.declare(name, srt)
+		if srt == SInt && isRefType(elemT) {
+			fc.fact(fmt.Sprintf("(>= %s 0)", name))
+		}
+		fc.usedGlobals = append(fc.usedGlobals, g)
+	}
+	return Term{name, srt}
 }
